@@ -18,7 +18,9 @@ history so far satisfied the local hypotheses (`StepOk`), which is when `undo_co
 one executed transaction (see harness/src/c08.rs). Reply
 `ded=<caller after deduct_caller> cpost=<caller final> bpost=<beneficiary final> diff=<Σpre−Σpost>`
 computed with the code-shaped fee legs of `Model/TxFeeLegs.lean`; the Spec column is the same four
-values from the closed formulas of `Spec/Ether.lean` (`tx_conserves`). -/
+values from the closed formulas of `Spec/Ether.lean` (`tx_conserves_local`), printed when its local
+hypotheses hold on the observed balances and no self-destruct credit wrapped (`wraps = 0`; each wrap
+destroys exactly 2^256 wei, `selfdestruct_overflow_destroys`, and is added to the model's prediction). -/
 namespace Driver.Ether
 open Revm Revm.Hex Revm.Model.Journal Revm.Model.TxFeeLegs Revm.Spec.JournalAbs Revm.Spec.Ether
 
@@ -106,9 +108,9 @@ def etx (toks : List String) : String :=
   | some spec, some rw, some gl, some gp, some pf, some bf, some bgp, some tbg, some isCall, some same, some cpre, some obs =>
     match obs.splitOn "," with
     | ["rejected"] => "rejected diff=0"
-    | [_, gu, gr, cend, bend, sd, late] =>
-      match parseHex? gu, parseHex? gr, parseHex? cend, parseHex? bend, parseHex? sd, parseHex? late with
-      | some used, some refunded, some cend, some bend, some sd, some late =>
+    | [_, gu, gr, cend, bend, sd, late, wr] =>
+      match parseHex? gu, parseHex? gr, parseHex? cend, parseHex? bend, parseHex? sd, parseHex? late, parseHex? wr with
+      | some used, some refunded, some cend, some bend, some sd, some late, some wraps =>
         let cb : Nat := if same = 1 then 1 else 2
         let e : FeeEnv := { caller := 1, coinbase := cb, gasLimit := gl, gasPrice := gp, priorityFee := pf,
                             basefee := bf, blobGasPrice := bgp, totalBlobGas := tbg, isCall := isCall = 1 }
@@ -131,14 +133,14 @@ def etx (toks : List String) : String :=
           | some s3 =>
             let cpost := bal db2 s3 1
             let bpost := bal db2 s3 cb
-            let diff : Int := ((cpre : Int) - ded) + sd + late - ((total L db2 s3 : Int) - total L db2 s2)
+            let diff : Int := ((cpre : Int) - ded) + sd + late + wraps * W - ((total L db2 s3 : Int) - total L db2 s2)
             let m := s!"ded={toHex ded} cpost={toHex cpost} bpost={toHex bpost} diff={intStr diff}"
             -- Spec column: closed formulas, where `tx_conserves` applies
             let validated := decide (specDebit spec e ≤ cpre) && (decide (spec < CANCUN) || bgp.isSome)
             let gasOk := decide (spent ≤ gl) && decide (gl < U64)
             let fits := decide (cend + specReimbursement e remaining refunded + specReward spec e spent refunded < W) &&
                         decide (bend + specReimbursement e remaining refunded + specReward spec e spent refunded < W)
-            if validated && gasOk && fits then
+            if validated && gasOk && fits && wraps = 0 then
               let r := specReimbursement e remaining refunded
               let c := if rewards then specReward spec e spent refunded else 0
               let cpost' := if same = 1 then cend + r + c else cend + r
@@ -146,7 +148,7 @@ def etx (toks : List String) : String :=
               let d := specTxBurn spec e rewards spent refunded (sd + late)
               s!"{m} | spec=ded={toHex (cpre - specDebit spec e)} cpost={toHex cpost'} bpost={toHex bpost'} diff={toHex d}"
             else m
-      | _, _, _, _, _, _ => "bad-op"
+      | _, _, _, _, _, _, _ => "bad-op"
     | _ => "bad-op"
   | _, _, _, _, _, _, _, _, _, _, _, _ => "bad-op"
 
